@@ -132,6 +132,9 @@ func tailFile(path string, max int64) string {
 // exchange sends one case and waits for the result
 func (p *Pool) exchange(c *child, cs *proto.Case) (*proto.Result, bool) {
 	b, _ := json.Marshal(cs)
+	if d := os.Getenv("VERIF_DUMP_CASES"); d != "" {
+		os.WriteFile(filepath.Join(d, cs.ID+".json"), b, 0644)
+	}
 	c.in.Write(b)
 	c.in.WriteByte('\n')
 	if err := c.in.Flush(); err != nil {
